@@ -375,6 +375,7 @@ class Driver:
             nmsgs=self.call_msgs,
             steps=sim.nsteps - self.call_start_step,
             subs={n: [_cbname(f) for f in d.subs] for n, d in self.world.items() if d.subs},
+            scan_id=RE.md.get("scan_id"),
         )
         return outcome
 
